@@ -133,7 +133,7 @@ def buildTagMap (env : Env) (tag : String) : List Ty → Nat → List (Val × Na
   | [], _, acc => .ok acc
   | t :: ts, i, acc =>
     match tagAttr env tag t with
-    | none => .error (.attributeError ("Tag '" ++ tag ++ "' not found inside type"))
+    | none => .error (.typeError ("Tag '" ++ tag ++ "' not found inside type"))
     | some v =>
       if !v.hashable then .error (.typeError "unhashable tag value")
       else if (Val.lookupPy v acc).isSome then .error (.typeError "Tag value matches multiple types")
